@@ -32,6 +32,25 @@ Theorem C04_header_shape :
 Proof. exact header_shape. Qed.
 Print Assumptions C04_header_shape.
 
+(* the same for the handler's current form, which reads (guid, value) as ONE pair from the key
+   keeper (/repo a01dbe0) *)
+Theorem C04_signed_is_sent_pair :
+  forall (mac : bytes -> bytes -> bytes) (key : option (bytes * bytes)) (req out : request),
+  sign_and_forward_pair mac key req = Forwarded out ->
+  request_sig_input out = request_sig_input req /\
+  r_method out = r_method req /\ r_uri out = r_uri req /\ r_body out = r_body req.
+Proof. exact signed_is_sent_pair. Qed.
+Print Assumptions C04_signed_is_sent_pair.
+
+Theorem C04_header_shape_pair :
+  forall (mac : bytes -> bytes -> bytes) (guid key kb : bytes) (req out : request),
+  sign_and_forward_pair mac (Some (guid, key)) req = Forwarded out ->
+  hex_decode key = Some kb ->
+  hm_get_all auth_header (r_headers out) =
+  [auth_scheme ++ [32] ++ guid ++ [32] ++ hex_encode (mac kb (request_sig_input out))].
+Proof. exact header_shape_pair. Qed.
+Print Assumptions C04_header_shape_pair.
+
 (* every other header is forwarded as it came *)
 Theorem C04_other_headers_untouched :
   forall (mac : bytes -> bytes -> bytes) (key_value key_guid : option bytes) (req out : request)
@@ -115,7 +134,7 @@ Print Assumptions C04_own_calls_always_have_headers.
 (* the canonical string does not depend on presentation                                      *)
 (* ---------------------------------------------------------------------------------------- *)
 (* headers: any order (when no signed name is repeated), any name case, any surrounding
-   blanks / tabs *)
+   blanks / tabs -- for every value, valid UTF-8 or not *)
 Theorem C04_canon_headers_permutation_invariant :
   forall (m b : bytes) (u : uri) (hs hs' hs'' : headers),
   repeated_header_name hs = false ->
@@ -196,16 +215,48 @@ Theorem C04_covers_headers_refuted :
 Proof. exact Lit.covers_headers_refuted. Qed.
 Print Assumptions C04_covers_headers_refuted.
 
-(* ... and true outside the class: equal strings => equal multisets of signed headers *)
+(* a value that is not valid UTF-8 is signed as U+FFFD per maximal invalid subpart (since /repo
+   0528025; it used to panic): different byte strings, one canonical string (known finding F3c) *)
+Theorem C04_covers_headers_refuted_not_utf8 :
+  exists hs hs' : headers,
+    KnownClass_C04_header_value_not_utf8 hs = true /\
+    KnownClass_C04_repeated_header_name hs = false /\ KnownClass_C04_repeated_header_name hs' = false /\
+    wf_headers hs = true /\ wf_headers hs' = true /\
+    canon_headers hs = canon_headers hs' /\
+    ~ Permutation (hnorm_multiset hs) (hnorm_multiset hs').
+Proof. exact Lit.covers_headers_refuted_not_utf8. Qed.
+Print Assumptions C04_covers_headers_refuted_not_utf8.
+
+(* ... and true outside the classes: equal strings => equal multisets of (lower name, value as
+   received up to surrounding blanks) *)
 Theorem C04_covers_headers_partial :
   forall (m b : bytes) (hs hs' : headers) (u : uri),
   wf_headers hs = true -> wf_headers hs' = true ->
   KnownClass_C04_repeated_header_name hs = false ->
   KnownClass_C04_repeated_header_name hs' = false ->
+  KnownClass_C04_header_value_not_utf8 hs = false ->
+  KnownClass_C04_header_value_not_utf8 hs' = false ->
   as_sig_input m b hs u = as_sig_input m b hs' u ->
   Permutation (hnorm_multiset hs) (hnorm_multiset hs').
 Proof. exact covers_headers_partial. Qed.
 Print Assumptions C04_covers_headers_partial.
+
+(* without the UTF-8 hypothesis: the string still determines WHAT IS SIGNED of every header *)
+Theorem C04_covers_signed_headers :
+  forall (m b : bytes) (hs hs' : headers) (u : uri),
+  wf_headers hs = true -> wf_headers hs' = true ->
+  KnownClass_C04_repeated_header_name hs = false ->
+  KnownClass_C04_repeated_header_name hs' = false ->
+  as_sig_input m b hs u = as_sig_input m b hs' u ->
+  Permutation (hsigned_multiset hs) (hsigned_multiset hs').
+Proof. exact covers_signed_headers. Qed.
+Print Assumptions C04_covers_signed_headers.
+
+(* valid UTF-8 values are signed byte for byte (after trimming) *)
+Theorem C04_valid_utf8_signed_verbatim :
+  forall v : bytes, utf8_valid v = true -> hval v = trim_u v.
+Proof. exact hval_valid. Qed.
+Print Assumptions C04_valid_utf8_signed_verbatim.
 
 (* query: full statement refuted (known finding F3(a)): colliding sort keys, exact duplicates *)
 Theorem C04_covers_query_refuted :
@@ -287,7 +338,11 @@ Example C04_nonvacuous :
   should_skip_sig (B"POST") {| u_path := B"/machine/"; u_query := Some (B"comp=telemetryData") |} = true /\
   KnownClass_C04_kv_collision (Some (B"a=bc&ab=c")) = true /\
   KnownClass_C04_kv_collision (Some (B"a=1&a=2&ab=&A")) = false /\
-  KnownClass_C04_repeated_header_name (r_headers w_req) = false.
+  KnownClass_C04_repeated_header_name (r_headers w_req) = false /\
+  hval [32; 195; 169; 194; 160; 9] = [195; 169] /\           (* " \u00e9\u00a0\t" -> "\u00e9" *)
+  hval [97; 226; 130; 32] = [97; 239; 191; 189] /\           (* truncated 3-byte sequence -> U+FFFD *)
+  KnownClass_C04_header_value_not_utf8 [(B"x", [97; 128])] = true /\
+  KnownClass_C04_header_value_not_utf8 [(B"x", [240; 159; 152; 128])] = false.
 Proof.
   split; [eexists; split; [vm_compute; reflexivity|split; vm_compute; reflexivity]|].
   vm_compute. repeat split.
